@@ -434,7 +434,7 @@ def _shallowcopy(sk, n, x):
     return x
 
 
-ITERTOOLS_FUNCS = ('islice', 'chain', 'product', 'repeat', 'zip_longest', 'combinations', 'permutations', 'count', 'cycle', 'tee', 'pairwise')
+ITERTOOLS_FUNCS = ('islice', 'chain', 'product', 'repeat', 'zip_longest', 'combinations', 'permutations', 'count', 'cycle', 'tee', 'pairwise', 'takewhile', 'dropwhile', 'starmap', 'accumulate')
 
 
 def itertools_func(name):
@@ -447,6 +447,40 @@ def itertools_func(name):
             if isinstance(x, (Bag, GenObj)):
                 return list(sk.iterate(x, n))
             return x
+        if name in ('takewhile', 'dropwhile') and len(a) == 2 and not k:
+            # the predicate belongs to the interpreted program; evaluated lazily, element by element (the iterable may be count())
+            pred, it = a[0], mat(a[1])
+
+            def lazy():
+                dropping = name == 'dropwhile'
+                for x in it:
+                    t_ = bool(sk.apply(pred, [x], {}, n))
+                    if name == 'takewhile':
+                        if not t_:
+                            return
+                        yield x
+                    else:
+                        if dropping and t_:
+                            continue
+                        dropping = False
+                        yield x
+            return lazy()
+        if name == 'starmap' and len(a) == 2 and not k:
+            return [sk.apply(a[0], list(args_), {}, n) for args_ in mat(a[1])]
+        if name == 'accumulate':
+            seq = list(mat(a[0]))
+            fn_ = a[1] if len(a) > 1 else k.get('func')
+            out_, started = [], False
+            if 'initial' in k and k['initial'] is not None:
+                out_.append(k['initial'])
+                started = True
+            for x in seq:
+                if not started:
+                    out_.append(x)
+                    started = True
+                else:
+                    out_.append(sk.apply(fn_, [out_[-1], x], {}, n) if fn_ is not None else sk.arith(o.add, out_[-1], x, n))
+            return out_
         f = getattr(itertools, name, None)
         if f is None:
             raise Unsupported('itertools.%s' % name)
@@ -1509,6 +1543,22 @@ def _sum(sk, n, x, *start):
     return sum(x, *start)
 
 
+def _next(sk, n, it, *default):
+    if isinstance(it, (list, tuple)):           # (generator expressions are materialised: next() of one is its first element)
+        if it:
+            return it[0]
+    elif hasattr(it, '__next__'):
+        try:
+            return next(it)
+        except StopIteration:
+            pass
+    else:
+        raise Unsupported('next() of %s' % type(it).__name__)
+    if default:
+        return default[0]
+    raise Raised('StopIteration', 'next() of an exhausted iterator', n)
+
+
 NONETYPE = Py(lambda sk, n: None, 'NoneType')
 
 
@@ -1599,6 +1649,7 @@ BUILTINS = {
     'hasattr': Py(lambda sk, n, ob, k: isinstance(ob, Bag) and (k in ob._a or (isinstance(ob._cls, tuple) and isinstance(k, str) and (sk.class_attr(ob._cls, k) is not NOATTR or sk.m.lookup(ob._cls, k, 'methods') is not None or sk.m.lookup(ob._cls, k, 'getters') is not None))), 'hasattr'),
     'dict': Py(lambda sk, n, *a, **k: dict(*a, **k), 'dict'), 'deepcopy': Py(_deepcopy_tracked, 'deepcopy'),
     'type': Py(lambda sk, n, x: _type_of(sk, n, x), 'type'),
+    'next': Py(lambda sk, n, it, *d: _next(sk, n, it, *d), 'next'), 'iter': Py(lambda sk, n, x: iter(sk.iterate(x, n)), 'iter'),
     'divmod': Py(lambda sk, n, a, b: divmod(a, b) if all(isinstance(x, (int, float)) and not isinstance(x, bool) for x in (a, b)) else DEF(), 'divmod'),
     'sum': Py(_sum, 'sum'), 'reversed': Py(lambda sk, n, x: list(reversed(x)), 'reversed'), 'sorted': Py(lambda sk, n, x, **k: _sorted(sk, n, x, **k), 'sorted'),
     'lru_cache': Py(lambda sk, n, *a, **k: _lru_cache(sk, n, *a, **k), 'lru_cache'),
